@@ -2,28 +2,38 @@
 """Runner for the Kani harness crate /verif/kani.
 
     python3 /verif/kani/run.py --property C17 --tier quick|thorough [--jobs N] [--json out.json]
-                               [--harness NAME ...] [--no-cex] [--list]
+                               [--harness NAME ...] [--no-cex] [--list] [--mem-gb G]
 
-Steps
- 1. (re)generates the shim modules from the CURRENT /repo working tree – done by the crate's
-    build.rs, which cargo re-runs whenever one of the /repo files it reads has changed – and
-    compiles the crate once with `cargo kani --only-codegen` into /verif/.cache/kani_target.
-    If the crate no longer compiles against /repo: every harness -> "build_error", exit 2.
- 2. runs every harness of harnesses.json registered for (property, tier), `--jobs` at a time,
-    each as its own `cargo kani --harness <path> --exact` process (the build is fresh, so the
-    cargo step is a no-op) under an address-space limit and a wall-clock timeout.
- 3. classifies: success | failed | inconclusive(timeout|oom|unwinding|vacuous|error) | build_error.
-    Only `VERIFICATION:- SUCCESSFUL` with every kani::cover! SATISFIED counts as success.
- 4. for each `failed` harness re-runs with `-Z concrete-playback --concrete-playback=print`,
-    stores the generated unit test in /verif/.cache/kani_cex/<harness>.rs and tries to replay
-    it natively (`cargo kani playback`) in a scratch copy of the crate under /verif/.cache.
- 5. prints one JSON document (also written to --json).
+What it does
+ 1. The shim modules (opcode table, EVM_* constants, scaled stack, cut-down Policy + deadline
+    functions) are regenerated from the CURRENT /repo working tree by the crate's build.rs;
+    cargo re-runs it whenever one of the /repo files it reads has changed.  The real sources
+    are `#[path]`-included, so every run compiles against the current /repo files.
+ 2. ONE `cargo kani` invocation builds the crate (only the cargo feature(s) = module(s) of the
+    selected properties, only the selected harnesses are code-generated) into
+    /verif/.cache/kani_target and verifies the harnesses of harnesses.json registered for
+    (property, tier) with `-j <jobs>`; results are taken from Kani's `--export-json`.
+    If the crate does not compile against /repo: every harness -> "build_error", exit 2.
+    Harnesses for which the batch produced no result (e.g. the driver aborted) are re-run one
+    by one as separate `cargo kani --harness <path> --exact` processes.
+    Everything runs under an address-space limit (default 12 GB per process) and a per-harness
+    timeout (`--harness-timeout`, the largest timeout_s of the selected harnesses).
+ 3. Classification: success | failed | inconclusive(timeout|oom|unwinding|vacuous|error) |
+    build_error.  success = Kani status Success AND every kani::cover! witness SATISFIED
+    (an unsatisfiable / unreachable witness means the harness is vacuous -> inconclusive).
+    A harness whose only failed checks are unwinding assertions is inconclusive(unwinding).
+ 4. Each `failed` harness is re-run with `-Z concrete-playback --concrete-playback=print`; the
+    generated unit test is stored in /verif/.cache/kani_cex/<harness>.rs and replayed natively
+    with `cargo kani playback` in a scratch copy of the crate under /verif/.cache
+    (replay = reproduced | not_reproduced | printed).
+ 5. One JSON document is printed (and written to --json).
 
-Exit code: 0 all success; 1 at least one `failed` harness with a counterexample produced;
-2 otherwise (any inconclusive / build_error / failed-without-counterexample and no cex).
+Exit code: 0 = all success; 1 = at least one `failed` harness whose counterexample was
+produced; 2 = otherwise (any inconclusive / build_error, or failed without counterexample).
 Only the python3 standard library is used.
 """
 import argparse
+import glob
 import json
 import os
 import re
@@ -34,7 +44,6 @@ import subprocess
 import sys
 import threading
 import time
-from concurrent.futures import ThreadPoolExecutor
 
 HERE = os.path.dirname(os.path.abspath(__file__))
 CACHE = os.path.join(os.path.dirname(HERE), ".cache")
@@ -47,8 +56,17 @@ REPO = "/repo"
 MEM_LIMIT_GB_DEFAULT = 12
 
 ENV = dict(os.environ)
-ENV["CARGO_NET_OFFLINE"] = "true"
+ENV["CARGO_NET_OFFLINE"] = "true"  # the sandbox has no network; cargo kani rejects --offline
 ENV.pop("CARGO_TARGET_DIR", None)
+
+FEATURES = []  # set in main(): one cargo feature per selected property
+
+# Kani adds, for every assertion, a second "reachability" property and CBMC decides every
+# property with its own incremental SAT call; on the pointer-heavy stack harnesses this is
+# the dominating cost (measured on c17_swap_13_16: 1534 s with, 43 s without).  Vacuity is
+# instead guarded by the explicit kani::cover! witnesses every harness carries (all must be
+# SATISFIED), therefore the reach checks are switched off for all harnesses.
+DEFAULT_KANI_ARGS = ["-Z", "unstable-options", "--no-assertion-reach-checks"]
 
 
 def sh(cmd, **kw):
@@ -58,12 +76,12 @@ def sh(cmd, **kw):
 def versions():
     v = {}
     try:
-        v["kani"] = sh(["cargo", "kani", "--version"]).stdout.strip()
+        out = sh(["cargo", "kani", "--version"]).stdout.strip().splitlines()
+        v["kani"] = out[0] if out else "unknown"
     except Exception as e:  # noqa
         v["kani"] = "unknown: %s" % e
     cbmc = shutil.which("cbmc")
     if not cbmc:
-        import glob
         c = sorted(glob.glob(os.path.expanduser("~/.kani/kani-*/bin/cbmc")))
         cbmc = c[-1] if c else None
     try:
@@ -72,14 +90,11 @@ def versions():
         v["cbmc"] = "unknown: %s" % e
     try:
         v["repo_head"] = sh(["git", "-C", REPO, "rev-parse", "HEAD"]).stdout.strip()
-        v["repo_dirty_files"] = [l[3:] for l in sh(["git", "-C", REPO, "status", "--porcelain", "--untracked-files=no"]).stdout.splitlines()][:50]
+        st = sh(["git", "-C", REPO, "status", "--porcelain", "--untracked-files=no"]).stdout.splitlines()
+        v["repo_modified_files"] = [l[3:] for l in st][:50]
     except Exception:
         pass
     return v
-
-
-PROPERTIES = ["C05", "C17", "C18", "C20"]
-FEATURES = []  # set in main(): one cargo feature per selected property
 
 
 def base_cmd():
@@ -89,24 +104,64 @@ def base_cmd():
     return cmd
 
 
-# Kani adds, for every assertion, a second "reachability" property; CBMC decides each property
-# with its own incremental SAT call, so this doubles-to-squares the work on pointer-heavy
-# harnesses (measured on c17_swap_13_16: 1534 s with, 43 s without).  Vacuity is covered by the
-# explicit kani::cover! witness every harness carries (all must be SATISFIED), therefore the
-# reach checks are switched off for all harnesses.
-DEFAULT_KANI_ARGS = ["-Z", "unstable-options", "--no-assertion-reach-checks"]
-
-
 def harness_cmd(h, extra=()):
+    """Command line that verifies exactly one harness (also what a user would type)."""
     cmd = base_cmd() + ["--harness", h["path"], "--exact", "--output-format", "terse"]
-    cmd += DEFAULT_KANI_ARGS
+    cmd += DEFAULT_KANI_ARGS + ["--harness-timeout", "%ds" % h.get("timeout_s", 300)]
     cmd += list(h.get("kani_args", []))
     cmd += list(extra)
     return cmd
 
 
+def batch_cmd(hs, jobs, export):
+    cmd = base_cmd()
+    for h in hs:
+        cmd += ["--harness", h["path"]]
+    tmax = max(h.get("timeout_s", 300) for h in hs)
+    cmd += ["--exact", "-j", str(jobs), "--output-format", "terse"]
+    cmd += DEFAULT_KANI_ARGS + ["--harness-timeout", "%ds" % tmax, "--export-json", export]
+    return cmd, tmax
+
+
+class RssSampler(threading.Thread):
+    """Peak resident set of the cbmc process of each harness, sampled from /proc once a second
+    (the goto-binary named on cbmc's command line carries the mangled harness name)."""
+
+    def __init__(self, names):
+        super().__init__(daemon=True)
+        self.pats = {n: re.compile(r"\d+%s\.(?:out|symtab)" % re.escape(n)) for n in names}
+        self.peak = {}
+        self.stop = threading.Event()
+
+    def run(self):
+        while not self.stop.wait(1.0):
+            for d in os.listdir("/proc"):
+                if not d.isdigit():
+                    continue
+                try:
+                    with open("/proc/%s/comm" % d) as f:
+                        if f.read().strip() != "cbmc":
+                            continue
+                    with open("/proc/%s/cmdline" % d, "rb") as f:
+                        cl = f.read().replace(b"\0", b" ").decode(errors="replace")
+                    if TARGET not in cl:
+                        continue
+                    hwm = 0
+                    with open("/proc/%s/status" % d) as f:
+                        for l in f:
+                            if l.startswith("VmHWM:"):
+                                hwm = int(l.split()[1]) / 1024.0
+                    for n, p in self.pats.items():
+                        if p.search(cl):
+                            if hwm > self.peak.get(n, 0):
+                                self.peak[n] = round(hwm, 1)
+                            break
+                except (OSError, ValueError):
+                    continue
+
+
 def run_limited(cmd, log_path, timeout_s, mem_gb, cwd=HERE, env=None):
-    """Run cmd in its own process group with RLIMIT_AS; returns (rc|None on timeout, wall, peak_rss_mb)."""
+    """Run cmd in its own process group under RLIMIT_AS; -> (rc | None on timeout, wall_s)."""
     def pre():
         os.setsid()
         if mem_gb:
@@ -128,26 +183,125 @@ def run_limited(cmd, log_path, timeout_s, mem_gb, cwd=HERE, env=None):
         timer = threading.Timer(timeout_s, kill)
         timer.start()
         try:
-            _, status, ru = os.wait4(p.pid, 0)
+            rc = p.wait()
         finally:
             timer.cancel()
-        # make sure nothing of the group survives (cbmc children of a killed driver)
-        try:
+        try:  # nothing of the group may survive (cbmc children of a killed driver)
             os.killpg(p.pid, signal.SIGKILL)
         except (ProcessLookupError, PermissionError):
             pass
-        p.returncode = os.waitstatus_to_exitcode(status) if hasattr(os, "waitstatus_to_exitcode") else status
-    wall = time.time() - t0
-    return (None if timed_out else p.returncode), wall, round(ru.ru_maxrss / 1024.0, 1)
+    return (None if timed_out else rc), time.time() - t0
+
+
+OOM_RE = re.compile(r"bad_alloc|out of memory|memory exhausted|cannot allocate memory", re.I)
+BUILD_ERR_RE = re.compile(
+    r"error: could not compile|error: failed to run custom build command|Failed to compile"
+    r"|error: failed to (?:select|load|parse|get)|error: no matching package", re.I)
+
+
+def base_result(h):
+    return {
+        "name": h["name"], "property": h["property"], "status": None, "detail": "",
+        "wall_s": None, "verification_s": None, "peak_rss_mb": None,
+        "cover_satisfied": 0, "cover_total": 0, "cover_ok": False, "failed_checks": [],
+        "command": " ".join(harness_cmd(h)), "log": None,
+        "unwind": h.get("unwind"), "timeout_s": h.get("timeout_s"),
+        "functions": h.get("functions"), "oracle": h.get("oracle"),
+        "bounds": h.get("bounds"), "outside_claim": h.get("outside_claim"),
+    }
+
+
+def finish_classification(res, kstatus, exit_status, failed, cs, ct, text):
+    """Common decision table.  kstatus: 'Success' | 'Failure'."""
+    res["cover_satisfied"], res["cover_total"], res["cover_ok"] = cs, ct, (ct > 0 and cs == ct)
+    res["failed_checks"] = failed
+    real = [f for f in failed if "unwinding assertion" not in f]
+    if kstatus == "Success":
+        if ct == 0:
+            res["status"], res["detail"] = "inconclusive", "vacuous (no cover witness reported)"
+        elif cs < ct:
+            res["status"], res["detail"] = "inconclusive", "vacuous (%d of %d cover witnesses not satisfied)" % (ct - cs, ct)
+        else:
+            res["status"] = "success"
+    elif real:
+        res["status"] = "failed"
+    elif failed:
+        res["status"], res["detail"] = "inconclusive", "unwinding"
+    elif exit_status == "timeout":
+        res["status"], res["detail"] = "inconclusive", "timeout"
+    elif OOM_RE.search(text or ""):
+        res["status"], res["detail"] = "inconclusive", "oom"
+    else:
+        res["status"], res["detail"] = "inconclusive", "error" + (" (%s)" % exit_status if exit_status else "")
+    return res
+
+
+def thread_sections(text):
+    """Terse -j output: 'Thread N: Checking harness <path>...' then later 'Thread N: \\n<result>'.
+    -> {harness path: result text}."""
+    cur, out = {}, {}
+    blocks = re.split(r"^Thread (\d+): ?", text, flags=re.M)
+    # blocks = [prefix, tid, body, tid, body, ...]
+    for i in range(1, len(blocks) - 1, 2):
+        tid, body = blocks[i], blocks[i + 1]
+        m = re.match(r"Checking harness (\S+?)\.\.\.", body)
+        if m:
+            cur[tid] = m.group(1)
+            body = body[m.end():]
+        if tid in cur and body.strip():
+            out[cur[tid]] = out.get(cur[tid], "") + body
+    return out
+
+
+def results_from_export(export, hs, text):
+    """-> {name: result} for every harness that has an entry in Kani's JSON export."""
+    out = {}
+    try:
+        d = json.load(open(export))
+    except (OSError, ValueError):
+        return out
+    bypath = {h["path"]: h for h in hs}
+    errs = {e.get("harness_id"): e for e in d.get("error_details", [])}
+    stats = {e.get("harness_id"): e.get("cbmc_stats") for e in d.get("cbmc", [])}
+    sections = thread_sections(text)
+    for r in d.get("verification_results", {}).get("results", []):
+        hid = r.get("harness_id")
+        h = bypath.get(hid)
+        if not h:
+            continue
+        res = base_result(h)
+        res["verification_s"] = round(r.get("duration_ms", 0) / 1000.0, 1)
+        failed, cs, ct = [], 0, 0
+        for c in r.get("checks", []):
+            st, cat = c.get("status"), c.get("category")
+            loc = c.get("location", {})
+            where = "%s:%s in %s" % (loc.get("file"), loc.get("line"), c.get("function"))
+            if cat == "cover":
+                ct += 1
+                if st == "Satisfied":
+                    cs += 1
+                else:
+                    res.setdefault("cover_unsatisfied", []).append("%s [%s] (%s)" % (c.get("description"), st, where))
+            elif st == "Failure":
+                d2 = c.get("description", "")
+                if cat == "unwind" and "unwinding assertion" not in d2:
+                    d2 = "unwinding assertion " + d2
+                failed.append("%s  [%s]" % (d2, where))
+        e = errs.get(hid, {})
+        res["cbmc_stats"] = stats.get(hid)
+        finish_classification(res, r.get("status"), e.get("exit_status") if e.get("has_errors") else None,
+                              failed, cs, ct, sections.get(hid, ""))
+        out[h["name"]] = res
+    return out
 
 
 FAILED_RE = re.compile(r"^Failed Checks: (.*)$")
 COVER_RE = re.compile(r"\*\* (\d+) of (\d+) cover properties satisfied")
-SUMMARY_RE = re.compile(r"\*\* (\d+) of (\d+) failed")
 
 
-def classify(text, rc):
-    """-> (status, detail, failed_checks, cover_sat, cover_total)"""
+def result_from_text(h, text, rc):
+    """Fallback classification from the terse text output of a single-harness run."""
+    res = base_result(h)
     failed = []
     lines = text.splitlines()
     for i, l in enumerate(lines):
@@ -157,68 +311,73 @@ def classify(text, rc):
             failed.append((m.group(1) + ("  [" + loc + "]" if loc else "")).strip())
     cov = COVER_RE.search(text)
     cs, ct = (int(cov.group(1)), int(cov.group(2))) if cov else (0, 0)
-    low = text.lower()
-    if rc is None:
-        return "inconclusive", "timeout", failed, cs, ct
+    m = re.search(r"Verification Time: ([0-9.]+)s", text)
+    if m:
+        res["verification_s"] = round(float(m.group(1)), 1)
+    if rc is None or "CBMC timed out" in text:
+        return finish_classification(res, "Failure", "timeout", [], cs, ct, text)
     if "VERIFICATION:- SUCCESSFUL" in text:
-        if ct == 0:
-            return "inconclusive", "vacuous (no cover property reported)", failed, cs, ct
-        if cs < ct:
-            return "inconclusive", "vacuous (%d of %d cover witnesses unsatisfied)" % (ct - cs, ct), failed, cs, ct
-        return "success", "", failed, cs, ct
+        return finish_classification(res, "Success", None, failed, cs, ct, text)
     if "VERIFICATION:- FAILED" in text:
-        real = [f for f in failed if "unwinding assertion" not in f]
-        if real:
-            return "failed", "", failed, cs, ct
-        if failed:
-            return "inconclusive", "unwinding", failed, cs, ct
-        # FAILED without listed checks: CBMC error status
-        if "bad_alloc" in low or "out of memory" in low or "memory exhausted" in low:
-            return "inconclusive", "oom", failed, cs, ct
-        return "inconclusive", "error", failed, cs, ct
-    if "bad_alloc" in low or "out of memory" in low or "memory exhausted" in low or "cannot allocate memory" in low:
-        return "inconclusive", "oom", failed, cs, ct
-    if "error: could not compile" in text or re.search(r"^error(\[E\d+\])?:", text, re.M) and "CBMC" not in text:
-        return "build_error", "", failed, cs, ct
-    return "inconclusive", "error", failed, cs, ct
+        return finish_classification(res, "Failure", None, failed, cs, ct, text)
+    if BUILD_ERR_RE.search(text):
+        res["status"], res["detail"] = "build_error", "crate does not compile"
+        return res
+    return finish_classification(res, "Failure", "no verification result", [], cs, ct, text)
 
 
-def extract_playback_test(text, name):
+def run_single(h, mem_gb):
+    cmd = harness_cmd(h)
+    log = os.path.join(LOGS, h["name"] + ".log")
+    sampler = RssSampler([h["name"]])
+    sampler.start()
+    rc, wall = run_limited(cmd, log, h.get("timeout_s", 300) + 900, mem_gb)
+    sampler.stop.set()
+    text = open(log, errors="replace").read()
+    res = result_from_text(h, text, rc)
+    res["wall_s"] = round(wall, 1)
+    res["peak_rss_mb"] = sampler.peak.get(h["name"])
+    res["log"] = log
+    res["mode"] = "single"
+    return res
+
+
+def extract_playback_test(text):
     """The unit test Kani prints between ``` fences after 'Concrete playback unit test for'."""
     m = re.search(r"Concrete playback unit test for `[^`]*`:\s*```\s*\n(.*?)```", text, re.S)
     if not m:
         return None
-    body = m.group(1)
-    # strip the common left margin kani adds
-    ls = body.splitlines()
+    ls = m.group(1).splitlines()
     margin = min((len(l) - len(l.lstrip()) for l in ls if l.strip()), default=0)
     return "\n".join(l[margin:] for l in ls) + "\n"
 
 
 def produce_cex(h, mem_gb):
     """Re-run a failed harness with concrete playback; store + try to replay the unit test."""
-    out = {"cex_file": None, "replay": "none", "cex_command": None}
+    out = {"cex_file": None, "replay": "none"}
     os.makedirs(CEX, exist_ok=True)
     cmd = harness_cmd(h, ["-Z", "concrete-playback", "--concrete-playback=print"])
     out["cex_command"] = " ".join(cmd)
     log = os.path.join(LOGS, h["name"] + ".cex.log")
-    rc, wall, _ = run_limited(cmd, log, h.get("timeout_s", 300) * 2, mem_gb)
+    run_limited(cmd, log, h.get("timeout_s", 300) * 2 + 900, mem_gb)
     text = open(log, errors="replace").read()
-    test = extract_playback_test(text, h["name"])
+    test = extract_playback_test(text)
     if not test:
         out["replay"] = "no_counterexample_printed"
+        out["cex_log"] = log
         return out
     path = os.path.join(CEX, h["name"] + ".rs")
     header = ("// Counterexample for Kani harness %s (property %s)\n// produced by: %s\n"
-              "// Paste into %s (inside the harness module) and run `cargo kani playback -Z concrete-playback --test <fn>`.\n"
-              % (h["path"], h["property"], " ".join(cmd), "/verif/kani/src/" + h["file"]))
+              "// To replay by hand: append to /verif/kani/src/%s and run\n"
+              "//   cargo kani playback -Z concrete-playback --features %s --test <fn name below>\n"
+              % (h["path"], h["property"], " ".join(cmd), h["file"], h["property"].lower()))
     with open(path, "w") as f:
         f.write(header + test)
     out["cex_file"] = path
     out["replay"] = "printed"
-    # concrete values, for convenience
-    out["cex_values"] = re.findall(r"^\s*//\s*(.+)$", test, re.M)[:64]
-    # ---- native replay in a scratch copy of the crate
+    out["cex_values"] = [v.strip() for v in re.findall(r"^\s*//\s*(.+)$", test, re.M)][:64]
+    # ---- native replay in a scratch copy of the crate (cargo kani playback rejects --target-dir;
+    #      the copy's .cargo/config.toml and CARGO_TARGET_DIR point the build at /verif/.cache)
     try:
         m = re.search(r"fn (kani_concrete_playback_\w+)", test)
         if not m:
@@ -228,71 +387,43 @@ def produce_cex(h, mem_gb):
         shutil.rmtree(dst, ignore_errors=True)
         os.makedirs(PLAYBACK, exist_ok=True)
         shutil.copytree(HERE, dst, ignore=shutil.ignore_patterns("target", "__pycache__", "*.json", "*.md", "run.py"))
-        cfg = os.path.join(dst, ".cargo", "config.toml")
-        with open(cfg, "w") as f:
+        with open(os.path.join(dst, ".cargo", "config.toml"), "w") as f:
             f.write('[net]\noffline = true\n\n[build]\ntarget-dir = "%s"\n' % PLAYBACK_TARGET)
-        src = os.path.join(dst, "src", h["file"])
-        with open(src, "a") as f:
+        with open(os.path.join(dst, "src", h["file"]), "a") as f:
             f.write("\n// ---- appended by run.py for replay ----\n" + test)
-        pcmd = ["cargo", "kani", "playback", "-Z", "concrete-playback", "--test", tname]
+        pcmd = ["cargo", "kani", "playback", "-Z", "concrete-playback", "--features", h["property"].lower(), "--test", tname]
         plog = os.path.join(LOGS, h["name"] + ".replay.log")
         env = dict(ENV)
         env["CARGO_TARGET_DIR"] = PLAYBACK_TARGET
-        rc, wall, _ = run_limited(pcmd, plog, 900, None, cwd=dst, env=env)
+        run_limited(pcmd, plog, 1800, None, cwd=dst, env=env)
         ptxt = open(plog, errors="replace").read()
-        out["replay_command"] = "(cd %s && %s)" % (dst, " ".join(pcmd))
+        out["replay_command"] = "(cd %s && CARGO_TARGET_DIR=%s %s)" % (dst, PLAYBACK_TARGET, " ".join(pcmd))
         out["replay_log"] = plog
-        if re.search(r"test .*%s .*FAILED" % re.escape(tname), ptxt) or ("panicked at" in ptxt and tname in ptxt):
+        if re.search(r"test \S*%s \.\.\. FAILED" % re.escape(tname), ptxt) or ("panicked at" in ptxt and "test result: FAILED" in ptxt):
             out["replay"] = "reproduced"
             pm = re.search(r"panicked at ([^\n]*)\n([^\n]*)", ptxt)
             if pm:
                 out["replay_panic"] = (pm.group(1) + " " + pm.group(2)).strip()
-        elif re.search(r"test .*%s .*ok" % re.escape(tname), ptxt):
+        elif re.search(r"test \S*%s \.\.\. ok" % re.escape(tname), ptxt):
             out["replay"] = "not_reproduced"
         else:
-            out["replay"] = "printed"
-            out["replay_note"] = "playback infrastructure did not run the test (see replay_log)"
+            out["replay_note"] = "playback did not run the test (see replay_log); unit test kept in cex_file"
         shutil.rmtree(dst, ignore_errors=True)
     except Exception as e:  # noqa
         out["replay_note"] = "replay attempt raised %r" % (e,)
     return out
 
 
-def run_harness(h, mem_gb, do_cex):
-    os.makedirs(LOGS, exist_ok=True)
-    cmd = harness_cmd(h)
-    log = os.path.join(LOGS, h["name"] + ".log")
-    rc, wall, rss = run_limited(cmd, log, h.get("timeout_s", 300), mem_gb)
-    text = open(log, errors="replace").read()
-    status, detail, failed, cs, ct = classify(text, rc)
-    if status == "inconclusive" and detail == "error" and rss > mem_gb * 1024 * 0.9:
-        detail = "oom"
-    res = {
-        "name": h["name"], "property": h["property"], "status": status, "detail": detail,
-        "wall_s": round(wall, 1), "peak_rss_mb": rss,
-        "cover_satisfied": cs, "cover_total": ct, "cover_ok": ct > 0 and cs == ct,
-        "failed_checks": failed, "command": " ".join(cmd), "log": log,
-        "unwind": h.get("unwind"), "timeout_s": h.get("timeout_s"),
-        "functions": h.get("functions"), "oracle": h.get("oracle"),
-        "bounds": h.get("bounds"), "outside_claim": h.get("outside_claim"),
-    }
-    if h.get("kani_args") and "stubbing" in " ".join(h["kani_args"]):
-        res["stub_applied"] = bool(re.search(r"- Stub: .*fmt::format", text)) or None
-    if status == "failed" and do_cex:
-        res.update(produce_cex(h, mem_gb))
-    return res
-
-
 def main():
     ap = argparse.ArgumentParser(description=__doc__, formatter_class=argparse.RawDescriptionHelpFormatter)
-    ap.add_argument("--property", required=False, default="all", help="C17 | C18 | C20 | C05 | all")
+    ap.add_argument("--property", default="all", help="C05 | C17 | C18 | C20 | all")
     ap.add_argument("--tier", choices=["quick", "thorough"], default="quick")
-    ap.add_argument("--jobs", type=int, default=max(1, min(12, (os.cpu_count() or 4) - 2)))
+    ap.add_argument("--jobs", type=int, default=max(1, min(14, (os.cpu_count() or 4) - 2)))
     ap.add_argument("--json", dest="json_out")
-    ap.add_argument("--harness", action="append", help="restrict to these harness names (repeatable)")
-    ap.add_argument("--mem-gb", type=float, default=MEM_LIMIT_GB_DEFAULT)
+    ap.add_argument("--harness", action="append", help="restrict to these harness names (repeatable; ignores property/tier)")
+    ap.add_argument("--mem-gb", type=float, default=MEM_LIMIT_GB_DEFAULT, help="address-space limit per process")
     ap.add_argument("--no-cex", action="store_true", help="do not re-run failed harnesses for counterexamples")
-    ap.add_argument("--list", action="store_true")
+    ap.add_argument("--list", action="store_true", help="list the selected harnesses and exit")
     ap.add_argument("--manifest", default=os.path.join(HERE, "harnesses.json"))
     a = ap.parse_args()
 
@@ -303,45 +434,73 @@ def main():
         hs = [h for h in manifest["harnesses"] if h["name"] in a.harness]
     if a.list:
         for h in hs:
-            print("%-34s %-4s %-16s unwind=%-5s timeout=%ss" % (h["name"], h["property"], ",".join(h["tiers"]), h.get("unwind"), h.get("timeout_s")))
+            print("%-44s %-4s %-16s unwind=%-5s timeout=%ss" % (h["name"], h["property"], ",".join(h["tiers"]), h.get("unwind"), h.get("timeout_s")))
         return 0
 
-    # one cargo feature per property: only the harness modules of the selected properties are
-    # compiled (Kani generates code per harness, so build time is proportional to their number)
     FEATURES[:] = sorted({h["property"].lower() for h in hs})
     t_start = time.time()
     doc = {"tool": "kani", "property": a.property, "tier": a.tier, "jobs": a.jobs,
            "mem_limit_gb": a.mem_gb, "versions": versions(), "harnesses": []}
+    if not hs:
+        doc["note"] = "no harness registered for this property/tier"
+        return finish(doc, t_start, a)
 
-    # ---- 1. build once (build.rs regenerates the shims from the current /repo text)
     os.makedirs(TARGET, exist_ok=True)
     os.makedirs(LOGS, exist_ok=True)
     lock = os.path.join(HERE, "Cargo.lock")
     if not os.path.exists(lock):
         shutil.copy(os.path.join(REPO, "Cargo.lock"), lock)
-    # same -Z / check flags as the harness runs: they are part of the rustc invocation, a
-    # different set would make every harness process recompile the crate
-    bcmd = base_cmd() + ["--only-codegen"] + DEFAULT_KANI_ARGS
-    blog = os.path.join(LOGS, "_build.log")
-    rc, bwall, _ = run_limited(bcmd, blog, 1800, None)
-    btxt = open(blog, errors="replace").read()
-    doc["build"] = {"command": " ".join(bcmd), "wall_s": round(bwall, 1), "ok": rc == 0, "log": blog}
-    if rc != 0:
-        errs = [l for l in btxt.splitlines() if l.startswith("error") or "verif build.rs" in l][:40]
-        doc["build"]["errors"] = errs
+
+    # ---- batch: build + verify in one cargo kani invocation
+    tag = "%s_%s" % (a.property.lower(), a.tier) if not a.harness else "selection"
+    export = os.path.join(LOGS, "_batch_%s.export.json" % tag)
+    blog = os.path.join(LOGS, "_batch_%s.log" % tag)
+    if os.path.exists(export):
+        os.remove(export)
+    cmd, tmax = batch_cmd(hs, a.jobs, export)
+    rounds = (len(hs) + a.jobs - 1) // a.jobs
+    sampler = RssSampler([h["name"] for h in hs])
+    sampler.start()
+    rc, bwall = run_limited(cmd, blog, 1800 + tmax * rounds + 600, a.mem_gb)
+    sampler.stop.set()
+    text = open(blog, errors="replace").read()
+    m = re.search(r"Finished `\w+` profile[^\n]* in (?:(\d+)m )?([0-9.]+)s", text)
+    build_s = (int(m.group(1) or 0) * 60 + float(m.group(2))) if m else None
+    compiled = m is not None
+    doc["batch"] = {"command": " ".join(cmd), "wall_s": round(bwall, 1), "exit": rc, "log": blog,
+                    "export_json": export if os.path.exists(export) else None,
+                    "cargo_build_s": build_s, "compiled": compiled}
+    if not compiled:
+        errs = [l for l in text.splitlines() if l.startswith("error") or "verif build.rs" in l][:40]
+        doc["batch"]["errors"] = errs
         for h in hs:
-            doc["harnesses"].append({"name": h["name"], "property": h["property"], "status": "build_error",
-                                     "detail": "crate does not compile against the current /repo tree",
-                                     "wall_s": 0, "cover_ok": False, "failed_checks": [],
-                                     "command": " ".join(harness_cmd(h))})
+            r = base_result(h)
+            r.update({"status": "build_error", "log": blog,
+                      "detail": "crate does not compile against the current /repo tree (see batch.errors)"})
+            doc["harnesses"].append(r)
         return finish(doc, t_start, a)
 
-    # ---- 2./3./4. run
-    order = sorted(hs, key=lambda h: -h.get("expected_s", 10))  # longest first
-    with ThreadPoolExecutor(max_workers=a.jobs) as ex:
-        results = list(ex.map(lambda h: run_harness(h, a.mem_gb, not a.no_cex), order))
-    byname = {r["name"]: r for r in results}
-    doc["harnesses"] = [byname[h["name"]] for h in hs]
+    results = results_from_export(export, hs, text)
+    for n, r in results.items():
+        r["peak_rss_mb"] = sampler.peak.get(n)
+        r["wall_s"] = r["verification_s"]
+        r["log"] = blog
+        r["mode"] = "batch"
+    # ---- anything without a result: one process per harness
+    missing = [h for h in hs if h["name"] not in results]
+    if missing:
+        doc["batch"]["rerun_individually"] = [h["name"] for h in missing]
+        from concurrent.futures import ThreadPoolExecutor
+        with ThreadPoolExecutor(max_workers=a.jobs) as ex:
+            for r in ex.map(lambda h: run_single(h, a.mem_gb), missing):
+                results[r["name"]] = r
+    # ---- counterexamples
+    if not a.no_cex:
+        for h in hs:
+            r = results[h["name"]]
+            if r["status"] == "failed":
+                r.update(produce_cex(h, a.mem_gb))
+    doc["harnesses"] = [results[h["name"]] for h in hs]
     return finish(doc, t_start, a)
 
 
@@ -352,8 +511,7 @@ def finish(doc, t_start, a):
     for r in hs:
         counts[r["status"]] = counts.get(r["status"], 0) + 1
     doc["summary"] = counts
-    failed = [r for r in hs if r["status"] == "failed"]
-    with_cex = [r for r in failed if r.get("cex_file")]
+    with_cex = [r for r in hs if r["status"] == "failed" and r.get("cex_file")]
     if hs and all(r["status"] == "success" for r in hs):
         code = 0
     elif with_cex:
